@@ -602,3 +602,22 @@ _ADDENDA2 = {
 }
 for _pid, _txt in _ADDENDA2.items():
     PROPERTIES[_pid]["level_text"] = PROPERTIES[_pid]["level_text"] + "  " + _txt
+
+_ADDENDA3 = {
+    "C01": "Rounds 14-16: molecules returned earlier and still held are re-judged after every later call (a result that moves by more than the law's tolerance is booked under the property of the call that returned it); targets of three and more residues; two-site references without a declared bond.",
+    "C02": "Rounds 14-16: ONE proper rotation per collinear anchor and per 1-/2-atom reference (mutual distances and signed areas / volumes: a mirror image is not a rotation); held results re-judged; two-site references whose topology lists no bond.",
+    "C03": "Rounds 14-16: held results re-judged against their own conformation after later calls.",
+    "C04": "Rounds 14-16: near-miss species (same atoms under another name, one bead more) must be refused with TypeError.",
+    "C05": "Rounds 14-16: several extrapolations on one manager, residue numbers with gaps inside one molecule, systems whose first atom is not number 1, non-ASCII titles.",
+    "C06": "Rounds 14-16: the molecules of a finished alignment are held while another alignment runs (on the same object after re-assignment, or on another Alignment object of the same species) and must not move.",
+    "C09": "Rounds 14-16: a molecule against itself at the same coordinates (the search starts at a measure of exactly 0); in a quarter of the runs the acceptance test is also judged on its own at its corners (equal measures including both 0, a lower measure of 0, a worse proposal against a held measure of 0); the array a finished search returned is compared again after a later search.",
+    "C10": "Rounds 14-16: homopolymers (all residues share one name) and unequal residue counts offered through the alignment itself.",
+    "C11": "Rounds 14-16: molecules handed out by index accesses are held and compared again when the history is over.",
+    "C14": "Rounds 14-16: a writer whose last act was to refuse a malformed record is dropped without close.",
+    "C15": "Rounds 14-16: a copy taken first and not looked at until the original has been edited (names, residue numbers, a bond).",
+    "C16": "Rounds 14-16: in half of the histories the parsed object is walked (sections, lines, contents, comments) BEFORE it is written back; a second molecule definition in the same file.",
+    "C18": "Rounds 14-16: in lazily verified histories a new copy is not looked at before the next comparison (a copy that duplicates on first use would otherwise be woken up by the harness).",
+    "C20": "Rounds 14-16: one directory per species holding the same three file names; start and end of a species never share residue and atom names (such a pair is ambiguous for discovery and outside the domain).",
+}
+for _pid, _txt in _ADDENDA3.items():
+    PROPERTIES[_pid]["level_text"] = PROPERTIES[_pid]["level_text"] + "  " + _txt
